@@ -313,7 +313,7 @@ def flat_statements():
 
 BLOCK_HEADS = [{"obsdup": "warn"}, {"all": "ignore"},
                {"empty": "raise", "bogus": "warn"}, {"sampsize": "print"},
-               {}]
+               {}, {"obsmdsize": "warn", "sampmdsize": None}]
 
 KW = st.one_of(
     st.dictionaries(st.sampled_from(KINDS), st.sampled_from(REACTIONS),
@@ -321,7 +321,8 @@ KW = st.one_of(
     st.builds(lambda r: {"all": r}, st.sampled_from(REACTIONS)),
     st.dictionaries(st.sampled_from(KINDS + ["bogus", "obs_dup"]),
                     st.sampled_from(REACTIONS + ["bogus", "Raise",
-                                                 "<callable>"]),
+                                                 "<callable>", None, "",
+                                                 0, True]),
                     min_size=1, max_size=3),
 )
 
